@@ -16,7 +16,7 @@ SPEC = {
                    "status, count in the response, the merged object line by line decoded, the real read-back), 1 hand-made "
                    "merged object (blank lines, no final newline, junk, truncation), 10 chart cases (generated UploadConfig: "
                    "0-4 programs incl. cmd/ ones and duplicates, semver/go versions, counters a:{b,c} incl. names colliding "
-                   "with GOOS/Version, 4% with a GoVersion of the malformed class; 1-8 days crossing month ends, 0-40 reports "
+                   "with GOOS/Version, 8% with a GoVersion goMajorMinor used to panic on (go1, g, empty: fixed by 48ba0d4); 1-8 days crossing month ends, 0-40 reports "
                    "a day via the real merge, 18% with one day missing; observed: status, object name, the chart JSON in the "
                    "order written, and whether re-running and re-shuffling the same set of reports over the days gives the "
                    "byte-identical object), 1 end<start range, 3 goMajorMinor strings, 2 splitCounterName/Expand/"
@@ -36,9 +36,10 @@ SPEC = {
                   "oracle chart_ok); which data/charts are present, their week and order; the chart object is the same for all "
                   "permutation-valued map iteration orders, all sort.Slice implementations meeting its contract, all orders "
                   "of the stored reports within and across the days of the range; a missing day gives no chart (not found). "
-                  "All for every configuration whose Go versions goMajorMinor can slice (cfg_ok); outside it the model "
-                  "panics like the code (known finding malformed-goversion, proved in general and on a witness). The model is "
-                  "tied to the code by differential execution of the extracted model against the real handlers.",
+                  "charts()/handleChart never panic, for ALL configurations, reports, orders and comparators (no premise; "
+                  "finding 16 fixed by 48ba0d4, the former refuted theorem is now this totality theorem). The other chart "
+                  "theorems hold for every configuration, under the premises on the two library comparators only (cfg_ok). "
+                  "The model is tied to the code by differential execution of the extracted model against the real handlers.",
     "level_note": "Trusted: Coq kernel+VM, extraction (ExtrOcamlBasic), OCaml glue, the injected Go harness and generators. "
                   "NOT modelled, premises of the theorems instead: encoding/json (enc/dec with: no raw newline in an encoding, "
                   "never empty, dec(enc r)=Some r), semver.Compare (total preorder => compareSemver strict total, proved), "
@@ -55,7 +56,6 @@ SPEC = {
         "encoding/json: an encoded report holds no raw newline, is not empty, and decodes to the same report (premises of C13_merge_one_line_per_object / C13_read_all; sampled by the merge cases)",
         "semver.Compare is a total preorder (then compareSemver is a strict total order: C13_compare_semver_order); version.Compare is a strict total order on the normalised go versions of the configuration (checked per case on the rank tables)",
         "sort.Slice returns a permutation of its input which is sorted whenever less is a strict total order on the distinct keys; ranging over a Go map visits every key exactly once in some order",
-        "configurations whose GoVersion entries all have the goN.M shape (cfg_ok); the complement is the known finding malformed-goversion",
         "storage: FSBucket is exercised; the GCS bucket is not",
     ],
     "trusted_base": [],
